@@ -7,6 +7,7 @@ import (
 	"flag"
 	"fmt"
 	"os"
+	"os/exec"
 	"path/filepath"
 	"runtime"
 	"sort"
@@ -258,11 +259,11 @@ type cexFile struct {
 }
 
 func writeCex(prop string, in *Instance, v *Violation, rv replayVerdict, status string) string {
-	dir := filepath.Join(verifRoot(), "evidence", "cex")
+	dir := filepath.Join(evidenceDir(), "cex")
 	os.MkdirAll(dir, 0o755)
 	name := fmt.Sprintf("%s-%s-%x.json", prop, in.Func, hashStr(in.Name()+v.Label))
 	p := filepath.Join(dir, name)
-	c := cexFile{prop, in.Func, in.Pkg, in.Params, v.Tape, v.Kind, v.Label, v.Where, rv.Label, status, "./bin/check --replay " + p}
+	c := cexFile{prop, in.Func, in.Pkg, in.Params, v.Tape, v.Kind, v.Label, v.Where, rv.Label, status, "./check --replay " + p}
 	b, _ := json.MarshalIndent(c, "", " ")
 	os.WriteFile(p, b, 0o644)
 	return p
@@ -406,9 +407,10 @@ func report(prop, tier string, seed int, insts []*Instance, outs []*runOutcome, 
 			"ssa_instructions_executed": steps,
 			"functions_encoded":         fnList,
 			"stubs_hit":                 stubList,
-			"inconclusive":              inconcl,
-			"engine_mismatches":         mismatches,
-			"known_findings_reproduced": keys(knownSeen),
+			"inconclusive":              nonNil(inconcl),
+			"engine_mismatches":         nonNil(mismatches),
+			"known_findings_reproduced": nonNil(keys(knownSeen)),
+			"tree_under_check":          treeState(),
 			"load_ssa_s":                loadT.Seconds(),
 			"native_replays":            rp.Runs,
 		},
@@ -420,9 +422,9 @@ func report(prop, tier string, seed int, insts []*Instance, outs []*runOutcome, 
 			"solvers: cvc5 1.0 and z3 5.1.0 race on every query; an (error line or unknown is inconclusive, never unsat",
 		},
 	}
-	os.MkdirAll(filepath.Join(verifRoot(), "evidence"), 0o755)
+	os.MkdirAll(evidenceDir(), 0o755)
 	b, _ := json.MarshalIndent(ev, "", " ")
-	os.WriteFile(filepath.Join(verifRoot(), "evidence", prop+".json"), b, 0o644)
+	os.WriteFile(filepath.Join(evidenceDir(), prop+".json"), b, 0o644)
 	fmt.Printf("%s %s: instances=%d paths=%d obligations=%d (folded %d) queries=%d solver=%.1fs replays=%d wall=%.1fs\n", prop, tier, len(insts), paths, obligations, folded, queries, solverT.Seconds(), replays, wall.Seconds())
 	if len(violations) > 0 {
 		for _, v := range violations {
@@ -455,3 +457,36 @@ func keys(m map[string]bool) []string {
 }
 
 func selftestMain(args []string) int { return 0 }
+
+func nonNil(l []string) []string {
+	if l == nil {
+		return []string{}
+	}
+	return l
+}
+
+// evidenceDir: /verif/evidence, unless VERIF_EVIDENCE_DIR redirects it (development runs against scratch trees; ./check unsets it).
+func evidenceDir() string {
+	if d := os.Getenv("VERIF_EVIDENCE_DIR"); d != "" {
+		return d
+	}
+	return filepath.Join(verifRoot(), "evidence")
+}
+
+// treeState records which tree the encoding was generated from: directory, HEAD and the files that differ from HEAD.
+func treeState() map[string]interface{} {
+	out := map[string]interface{}{"dir": repoDir}
+	if b, err := exec.Command("git", "-C", repoDir, "rev-parse", "HEAD").Output(); err == nil {
+		out["head"] = strings.TrimSpace(string(b))
+	}
+	if b, err := exec.Command("git", "-C", repoDir, "status", "--porcelain", "--untracked-files=no").Output(); err == nil {
+		mod := []string{}
+		for _, l := range strings.Split(strings.TrimSpace(string(b)), "\n") {
+			if l != "" && strings.HasSuffix(l, ".go") {
+				mod = append(mod, strings.TrimSpace(l))
+			}
+		}
+		out["modified_go_files"] = mod
+	}
+	return out
+}
